@@ -124,7 +124,16 @@ func genC05(t *rapid.T) c05Case {
 	deadDir := map[string]bool{} // directories that were whited out earlier
 	exists := map[int]bool{}
 	for li := 0; li < nl; li++ {
+		// an unrelated file: unique per layer, shared by several layers (so that two layers can
+		// be byte-identical, e.g. "re-create the same file": same diff ID, different command)
+		// or absent
 		l := c05Layer{Noise: fmt.Sprintf("noise/n%d.txt", li)}
+		switch rapid.IntRange(0, 3).Draw(t, "noise_kind") {
+		case 0:
+			l.Noise = "noise/shared.txt"
+		case 1:
+			l.Noise = ""
+		}
 		if rapid.IntRange(0, 3).Draw(t, "empty_before") == 0 {
 			l.EmptyBefore = rapid.IntRange(1, 2).Draw(t, "n_empty")
 		}
@@ -238,7 +247,9 @@ func (c c05Case) image() tarimg.Image {
 				es = append(es, tarimg.W(path.Dir(f)))
 			}
 		}
-		es = append(es, tarimg.D("noise", 0o755), tarimg.F(l.Noise, "x", 0o644))
+		if l.Noise != "" {
+			es = append(es, tarimg.D("noise", 0o755), tarimg.F(l.Noise, "x", 0o644))
+		}
 		for i := 0; i < l.EmptyBefore; i++ {
 			img.History = append(img.History, tarimg.History{CreatedBy: fmt.Sprintf("ENV e%d_%d", li, i), Empty: true})
 		}
@@ -404,6 +415,14 @@ func propC05(c c05Case) (ev.Outcome, error) {
 	}
 	if len(plan) > len(desc.Layers) {
 		o.Classes = append(o.Classes, "with_empty_layers")
+	}
+	seenDiff := map[string]bool{}
+	for _, d := range diffIDs {
+		if seenDiff[d] {
+			o.Classes = append(o.Classes, "byte_identical_layers")
+			break
+		}
+		seenDiff[d] = true
 	}
 	if c.TwoExtractor {
 		o.Classes = append(o.Classes, "two_extractors_one_file")
